@@ -218,11 +218,14 @@ OkSOpen(e) ==
     IN IF e.faulted THEN Out(e) = "err"                                   \* C17: the failure surfaces
        ELSE OpenOk(f, e, TRUE)                                            \* C07: same outcome and headers as the slice parser
 LazySOpen(e) == ReadsWithin(e.io, OpenRanges(FileOf(e.fileslot), e.es))
+\* C07 is one-directional outside its exact set: the stream parser may refuse what the slice parser refuses
+\* (today it does not validate .dynamic's sh_entsize; doing so would still satisfy every listed property)
+StricterLikeSlice(e) == e.name = "dynamic" /\ Out(e) = "err" /\ QOut(sth.f, sth.eb, e, FALSE) = "err"
 OkSQ(e) ==
     IF sth = <<>> THEN Out(e) = "closed"
     ELSE IF e.faulted THEN Out(e) = "err"
     ELSE IF sth.hadfault THEN (Out(e) = "err" \/ QueryOk(sth.f, sth.eb, e, TRUE))   \* C17: no residue
-    ELSE QueryOk(sth.f, sth.eb, e, TRUE) /\ RelC07(sth.f, sth.eb, e)
+    ELSE (QueryOk(sth.f, sth.eb, e, TRUE) \/ StricterLikeSlice(e)) /\ RelC07(sth.f, sth.eb, e)
 LazySQ(e) == sth # <<>> => ReadsWithin(e.io, QRanges(sth.f, sth.eb, e, TRUE))
 
 \* ---- C19: exported ABI definitions ------------------------------------------------------------
